@@ -51,7 +51,7 @@ class Check(CheckBase):
         return cs
 
     def config(self, tier, case):
-        return engine.Config(logic="QF_LRA", max_decisions=2000)
+        return engine.Config(logic="QF_LRA", max_decisions=2000, soft_alternatives=4)
 
     def expected_reach(self, tier):
         return ["leaf", "split", "hit", "miss"]
@@ -228,9 +228,59 @@ class Check(CheckBase):
                                 "query": [str(c) for c in qy], "returned": sorted(got), "brute_force": sorted(exp)}
         return None
 
+    def lift_by_solver(self, cex):
+        """Second lifting attempt, by the solver: the boxes of the failed lemma's model (the node's boxes, or the
+        children's extents taken as boxes) and its query stay concrete, one or two further boxes are symbolic, and
+        the end-to-end harness (real constructor + real query = brute force) is explored with a path budget.  A
+        model is replayed on the native code like any other end-to-end counterexample."""
+        i = cex["inputs"]
+        n = int(cex["case"].split("N")[1])
+        base = [tuple(Fraction(i["b%d_%s" % (k, c)]) for c in ("x1", "y1", "x2", "y2")) for k in range(n) if "b%d_x1" % k in i]
+        if not base:
+            base = [tuple(Fraction(i["child%d_%s" % (k, c)]) for c in ("xmin", "ymin", "xmax", "ymax")) for k in range(n) if "child%d_xmin" % k in i]
+            base = [b for b in base if b[0] <= b[2] and b[1] <= b[3]]
+        if "q_x1" not in i or not base:
+            return None
+        qc = tuple(Fraction(i["q_%s" % c]) for c in ("x1", "y1", "x2", "y2"))
+        native = loader.native("rtree")
+        for extra in (1, 2):
+            nb = len(base)
+
+            def h(run):
+                rt = load()
+                boxes = [(k, tuple(SymReal.of(c) for c in b)) for k, b in enumerate(base)]
+                for j in range(extra):
+                    b = [run.real("b%d_%s" % (nb + j, c)) for c in ("x1", "y1", "x2", "y2")]
+                    run.assume(b[0] <= b[2])
+                    run.assume(b[1] <= b[3])
+                    boxes.append((nb + j, tuple(b)))
+                q = tuple(SymReal.of(c) for c in qc)
+                res = rt.Index(list(boxes)).intersection(q)
+                qt = [c.t for c in q]
+                for k, b in boxes:
+                    bt = [c.t for c in b]
+                    run.prove("lift", overlap(bt, qt) if k in res else z3.Not(overlap(bt, qt)))
+            ex = engine.Explorer(h, engine.Config(logic="QF_LRA", max_decisions=2000, max_paths=400 if extra == 1 else 800, max_cex_per_ob=4))
+            try:
+                st = ex.explore()
+            except Exception:
+                continue
+            for c in st.cex:
+                allb = list(base)
+                for j in range(extra):
+                    allb.append(tuple(Fraction(c["inputs"]["b%d_%s" % (nb + j, cc)]) for cc in ("x1", "y1", "x2", "y2")))
+                boxes = [(k, b) for k, b in enumerate(allb)]
+                got = native.Index(list(boxes)).intersection(qc)
+                exp = {k for k, b in boxes if b[0] <= qc[2] and qc[0] <= b[2] and b[1] <= qc[3] and qc[1] <= b[3]}
+                if got != exp:
+                    return {"lifted_from_step_lemma": cex["obligation"], "lifted_by": "solver (model boxes concrete, %d further symbolic)" % extra,
+                            "boxes": [[k] + [str(x) for x in b] for k, b in boxes], "query": [str(x) for x in qc],
+                            "returned": sorted(got), "brute_force": sorted(exp)}
+        return None
+
     def replay(self, cex):
         if cex["case"].startswith("step/"):
-            return self.lift(cex)
+            return self.lift(cex) or self.lift_by_solver(cex)
         rt = loader.native("rtree")
 
         n = int(cex["case"][1:].split("/")[0])
